@@ -106,7 +106,14 @@ def h_analyzer(ctx, shape, herald, k, postsel, two_inputs):
             return
         ctx.fail("analyzer:no-valid-outputs-is-a-clean-error")
         return
-    expected = {st: lw.State(cand[0]) for st in inputs}
+    # each input gets its own expected output where there are enough of them,
+    # and the mapping is written in the opposite order to `inputs` for half of
+    # the input pairs (the pairing is by key, not by position)
+    exp_idx = [i if i < len(cand) else 0 for i in range(len(chosen))]
+    items = list(zip(inputs, exp_idx))
+    if len(chosen) > 1 and chosen[0] < chosen[1]:
+        items.reverse()
+    expected = {st: lw.State(cand[e]) for st, e in items}
     try:
         res = an.analyze(inputs if two_inputs else inputs[0], expected)
     except ZeroDivisionError:
@@ -126,7 +133,7 @@ def h_analyzer(ctx, shape, herald, k, postsel, two_inputs):
             want = ex[o][0]
             ctx.check_eq(res.array[i, j], want, "analyzer:probability-equals-heralded-loss-marginalised-probability")
             row_tot = row_tot + want
-        rows.append((row_tot, ex[tuple(cand[0])][0]))
+        rows.append((row_tot, ex[tuple(cand[exp_idx[i]])][0]))
     perf = 0
     for rt, _ in rows:
         perf = perf + rt
